@@ -408,14 +408,19 @@ public:
             struct RefFinder : RecursiveASTVisitor<RefFinder>
             {
                 bool parm = false, thisRef = false, mutableGlobal = false;
+                const DeclContext* owner = nullptr;   // the function the static lives in
                 bool VisitDeclRefExpr(DeclRefExpr* e) {
-                    if (isa<ParmVarDecl>(e->getDecl())) {
-                        parm = true;
+                    // parameters and locals of a lambda written inside the initialiser belong to that lambda, not to the call
+                    // that happens to run the initialisation
+                    if (auto* pv = dyn_cast<ParmVarDecl>(e->getDecl())) {
+                        if (!owner || pv->getDeclContext() == owner) {
+                            parm = true;
+                        }
                     } else if (auto* v = dyn_cast<VarDecl>(e->getDecl())) {
                         if (v->hasGlobalStorage() && !v->isConstexpr() && !v->getType().isConstQualified()) {
                             mutableGlobal = true;
                         }
-                        if (v->isLocalVarDecl() && !v->isStaticLocal() && !v->isConstexpr()) {
+                        if (v->isLocalVarDecl() && !v->isStaticLocal() && !v->isConstexpr() && (!owner || v->getDeclContext() == owner)) {
                             parm = true;   // a local of the enclosing call: value of this particular call
                         }
                     }
@@ -426,6 +431,7 @@ public:
                     return true;
                 }
             } rf;
+            rf.owner = vd->getDeclContext();
             rf.TraverseStmt(const_cast<Expr*>(vd->getInit()));
             o["init_uses_param"] = rf.parm;
             o["init_uses_this"] = rf.thisRef;
